@@ -22,7 +22,9 @@ Each derivation fails closed: an unexpected shape of the anchor yields a body ca
                      7 raw `group[key] = value`                        0 nothing written
   list_dispatch    io/hdf5.py `_write_list`: `np.array(value)`; `<U` -> 1 encoded bytes, else 2 raw;
                    a TypeError / ValueError that the `except` clause catches -> 3 per-element group,
-                   one it does not catch -> 0
+                   one it does not catch -> 0; an object-dtype array numpy built without raising
+                   (`is_object`): 3 / 0 if the source raises for it inside the try (caught / not
+                   caught), 2 (stored raw: strings come back as bytes objects) if it does not
   detect_{rdm,dataset,results}
                    the suffix tests of `load_rdm` / `load_dataset` / `load_results`
                    (`filename[-4:] == '.pkl'` ...): 1 pkl, 2 hdf5, 0 not understood
@@ -158,9 +160,23 @@ def _list_dispatch():
             and not body[0].finalbody and len(body[0].handlers) == 1):
         raise Underivable('_write_list is not one try / except')
     tr = body[0]
-    if not (len(tr.body) == 2 and ast.unparse(tr.body[0]) == 'array = np.array(value)'
-            and isinstance(tr.body[1], ast.If) and len(tr.body[1].orelse) == 1):
-        raise Underivable('try body is not `array = np.array(value)` + if / else')
+    stmts = list(tr.body)
+    if not (stmts and ast.unparse(stmts[0]) == 'array = np.array(value)'):
+        raise Underivable('try body does not start with `array = np.array(value)`')
+    # optional: `if array.dtype.kind == 'O': raise <Error>(…)` — an array of python objects (numpy
+    # builds one without complaint from a list of equal-length object arrays) is sent to the
+    # per-element fall-back by raising inside the try
+    obj_raises = None
+    if len(stmts) == 3 and isinstance(stmts[1], ast.If) and not stmts[1].orelse \
+            and ast.unparse(stmts[1].test) in ("array.dtype.kind == 'O'", "array.dtype == object",
+                                               "array.dtype.kind == \"O\"") \
+            and len(stmts[1].body) == 1 and isinstance(stmts[1].body[0], ast.Raise) \
+            and isinstance(stmts[1].body[0].exc, ast.Call):
+        obj_raises = ast.unparse(stmts[1].body[0].exc.func)
+        del stmts[1]
+    if not (len(stmts) == 2 and isinstance(stmts[1], ast.If) and len(stmts[1].orelse) == 1):
+        raise Underivable('try body is not `array = np.array(value)` [+ object-dtype guard] + if / else')
+    tr = ast.Try(body=stmts, handlers=tr.handlers, orelse=[], finalbody=[])
     cond = ast.unparse(tr.body[1].test)
     if cond not in ("str(array.dtype)[:2] == '<U'", "array.dtype.kind == 'U'"):
         raise Underivable(f'unicode test `{cond}`')
@@ -180,8 +196,12 @@ def _list_dispatch():
     hc = _calls(h.body)
     if not ('create_group' in {c.split('.')[-1] for c in hc} and '_write_to_group' in hc):
         raise Underivable('except body does not write a per-element group')
+    # an object-dtype array that np.array built without raising: with the guard it takes the
+    # except route (if what the guard raises is caught), without it it is stored raw
+    obj = 2 if obj_raises is None else (3 if obj_raises in caught or h.type is None or 'Exception' in caught else 0)
     return ['    if raises_type > 0:', f"        return {3 if 'TypeError' in caught else 0}",
             '    elif raises_value > 0:', f"        return {3 if 'ValueError' in caught else 0}",
+            '    elif is_object > 0:', f'        return {obj}',
             '    elif is_unicode > 0:', '        return 1', '    else:', '        return 2']
 
 
@@ -335,7 +355,7 @@ def _derive():
         out.append('')
 
     emit('write_dispatch', WRITE_FLAGS, _write_dispatch)
-    emit('list_dispatch', ['raises_type', 'raises_value', 'is_unicode'], _list_dispatch)
+    emit('list_dispatch', ['raises_type', 'raises_value', 'is_object', 'is_unicode'], _list_dispatch)
     suf = ['end4_pkl', 'end3_h5', 'end4_hdf5']
     emit('detect_rdm', suf, lambda: _detect('rdm/rdms.py', 'load_rdm'))
     emit('detect_dataset', suf, lambda: _detect('data/dataset.py', 'load_dataset'))
@@ -383,7 +403,7 @@ LEAVES = [
     dict(name='writeDispatch', file=DERIVED, func='write_dispatch', kind='func',
          params=_nat(WRITE_FLAGS), ret='Nat'),
     dict(name='listDispatch', file=DERIVED, func='list_dispatch', kind='func',
-         params=_nat(['raises_type', 'raises_value', 'is_unicode']), ret='Nat'),
+         params=_nat(['raises_type', 'raises_value', 'is_object', 'is_unicode']), ret='Nat'),
     dict(name='detectRdm', file=DERIVED, func='detect_rdm', kind='func', params=_SUF, ret='Nat'),
     dict(name='detectDataset', file=DERIVED, func='detect_dataset', kind='func', params=_SUF, ret='Nat'),
     dict(name='detectResults', file=DERIVED, func='detect_results', kind='func', params=_SUF, ret='Nat'),
